@@ -15,6 +15,11 @@ RULE = ("Dates drawn evenly over 2000-01-01 .. 2020-12-31 (to 2017-02 with the r
         "the 16 bodies of de403_2000-2020.bsp (+ the built-in EME2000 frame) is enumerated at every "
         "drawn date, with and without PCK files.")
 ASSUMPTIONS = [
+    "dates carry a drawn scale label (6 scales, same instant), a quarter fall 5-20 min from 0h UTC on the turn of a "
+    "year, a leap-second day or its eve, or at the ends of what the EOP tables / the kernel cover; the Date handed over "
+    "may be a pickle / deepcopy / copy clone; bodies are named in lower, Title or UPPER case; kernel states are asked "
+    "through get_orbit(), get_body().propagate() or frame.center.body.propagate(); frames are named by object or by "
+    "name on both the source and the target side",
     "tabulate facet: real IERS tables; the samples of a range stay >= 230 s away from 0h UTC (leap-second windows "
     "and which day's UT1-UTC serves next to midnight are C03 / C04 matters), the ranges themselves straddle the five "
     "leap-second midnights of 2006-2017, ordinary midnights, or none",
@@ -85,7 +90,60 @@ def date(draw, shard, bands=4, shift=1):
     lo = MJD_2000 + band * width
     mjd = lo + draw(go.unit()) * width
     d = int(mjd)
-    return dict(shard=shard, mjd=d, sec=draw(go.uniform(0.0, 86399.0)))
+    out = dict(shard=shard, mjd=d, sec=draw(go.uniform(0.0, 86399.0)), edge="none",
+               ilabel=SIX[(draw(st.integers(0, 5)) + shard) % 6],
+               clone=("none", "none", "pickle", "deepcopy", "copy")[(draw(st.integers(0, 4)) + shard) % 5],
+               spell=("lower", "title", "upper")[draw(st.integers(0, 2))])
+    if draw(st.integers(0, 3)) == 0:
+        # days on which something changes: turn of a year, a leap-second day and its eve, the ends of what the
+        # EOP tables (real) or the kernel (missing: pass) cover; 5 .. 20 min from 0h UTC on either side
+        import datetime
+
+        k = draw(st.integers(0, 20))
+        edge = ("year", "leap", "leap-eve", "end")[(draw(st.integers(0, 3)) + shard) % 4]
+        last_year = 2016 if eop_of(shard) == "real" else 2020
+        leaps = [m for m, _ in od.LEAP if 53000 < m <= (57754 if eop_of(shard) != "real" else 57204)]
+        if edge == "year":
+            out["mjd"] = (datetime.date(2001 + (k + shard) % (last_year - 2000), 1, 1) - datetime.date(1858, 11, 17)).days - k % 2
+        elif edge == "leap":
+            out["mjd"] = leaps[(k + shard) % len(leaps)]
+        elif edge == "leap-eve":
+            out["mjd"] = leaps[(k + shard) % len(leaps)] - 1
+        elif eop_of(shard) == "real":
+            out["mjd"] = (MJD_2000 + 5, MJD_REAL_END + 5, MJD_REAL_END + 6)[k % 3]
+        else:
+            out["mjd"] = (51543, 51544, 59209, 59210)[k % 4]  # kernel: 1999-12-24 12h .. 2021-01-02 12h, Sun needs +-5 d
+        out["sec"] = float(draw(st.integers(300, 1200)) if k % 3 else draw(st.integers(85200, 86100)))
+        out["edge"] = edge
+    return out
+
+
+SIX = ("UTC", "TAI", "TT", "GPS", "UT1", "TDB")
+
+
+def mkinstant(case):
+    """The instant whose UTC reading is (mjd, sec), under the scale label the case asks for and, if it
+    says so, as a clone (pickle / copy) of the Date that was built."""
+    import copy
+    import pickle
+
+    from beyond.dates import Date
+
+    dt = Date(int(case["mjd"]), float(case["sec"]))
+    if case.get("ilabel", "UTC") != "UTC":
+        dt = dt.change_scale(case["ilabel"])
+    how = case.get("clone", "none")
+    if how == "pickle":
+        dt = pickle.loads(pickle.dumps(dt))
+    elif how == "deepcopy":
+        dt = copy.deepcopy(dt)
+    elif how == "copy":
+        dt = copy.copy(dt)
+    return dt
+
+
+def spelled(name, case):
+    return dict(lower=name.lower(), title=name.title(), upper=name.upper())[case.get("spell", "lower")]
 
 
 def mkdate(case, label="UTC"):
@@ -97,6 +155,8 @@ def mkdate(case, label="UTC"):
 def date_classes(case):
     y = 2000 + (case["mjd"] - MJD_2000) / 365.25
     c = [f"{2000 + (int(y) - 2000) // 3 * 3}-{2000 + (int(y) - 2000) // 3 * 3 + 2}"]
+    if "ilabel" in case:
+        c += [f"label:{case['ilabel']}", f"edge:{case.get('edge', 'none')}", f"date-clone:{case.get('clone', 'none')}"]
     return c
 
 
@@ -116,8 +176,8 @@ def series_check(name):
     def check(case):
         from beyond.env import solarsystem
 
-        dt = mkdate(case)
-        body = solarsystem.get_body(name)
+        dt = mkinstant(case)
+        body = solarsystem.get_body(spelled(name, case))
         orb = body.propagate(dt)
         if orb.frame.name != native or orb.form.name != "cartesian":
             raise Violation("series-meta", f"{name}: state returned in {orb.frame.name}/{orb.form.name}")
@@ -134,7 +194,7 @@ def series_check(name):
         if dist > tol_dist:
             raise Violation(f"{name}-distance",
                             f"{name} at {dt}: distance off by {dist:.3g} relative (series accuracy {tol_dist})")
-        return dict(nt=True, cls=date_classes(case) + [f"eop:{eop_of(case['shard'])}"],
+        return dict(nt=True, cls=date_classes(case) + [f"eop:{eop_of(case['shard'])}", f"name:{case.get('spell', 'lower')}"],
                     ratio=max(ang / tol_ang, dist / tol_dist))
 
     return check
@@ -146,9 +206,9 @@ def check_velocity(case):
 
     name = case["body"]
     tol = SUN_VEL if name == "sun" else MOON_VEL
-    dt = mkdate(case)
+    dt = mkinstant(case)
     h = 600.0
-    body = solarsystem.get_body(name)
+    body = solarsystem.get_body(spelled(name, case))
     here = np.asarray(body.propagate(dt).base, float)
     plus = np.asarray(body.propagate(dt + timedelta(seconds=h)).base, float)
     minus = np.asarray(body.propagate(dt - timedelta(seconds=h)).base, float)
@@ -190,6 +250,7 @@ def frame_name(idx):
 def jpl_case(draw, shard, tier):
     c = draw(date(shard, bands=4, shift=2))
     c["label"] = draw(st.sampled_from(["UTC", "UTC", "UTC", "TT", "TDB"]))
+    c.pop("ilabel", None)  # here the reading itself is given in c["label"]
     return c
 
 
@@ -200,6 +261,11 @@ def check_jpl_pairs(case):
 
     K = kernel()
     dt = mkdate(case, case["label"])
+    if case.get("clone", "none") != "none":
+        import copy
+        import pickle
+
+        dt = {"pickle": lambda d: pickle.loads(pickle.dumps(d)), "deepcopy": copy.deepcopy, "copy": copy.copy}[case["clone"]](dt)
     j1, j2 = od.tdb_jd(case["mjd"], case["sec"], case["label"], float(dt.eop.tai_utc))
     with_pck = pck_of(case["shard"])
     ssb = {b: K.state(b, 0, j1, j2) for b in K.bodies}
@@ -243,31 +309,48 @@ def check_jpl_pairs(case):
 
     targets = list(K.bodies) + ["EME2000"]
     zero = {}
-    for a in targets:
-        src = "EME2000" if a == "EME2000" else fr[a]
+    spellings = set()
+    for na, a in enumerate(targets):
+        # the same requests spelled differently: frames by object or by name, the body's state through
+        # get_orbit(), get_body().propagate() or the body attached to the frame
+        by_name = (na + case["mjd"]) % 2 == 0
+        src = "EME2000" if a == "EME2000" else (names[a] if by_name else fr[a])
         ia = 399 if a == "EME2000" else a
         orbit = None
         if a not in ("EME2000", 0):
-            orbit = jpl.get_orbit(names[a], dt)
+            way = ("get_orbit", "get_body", "frame.body")[(na + case["mjd"]) % 3]
+            if way == "get_body" and (not with_pck or K.parent[a] == 0 and a != 10):
+                # jpl.get_body() looks the name up in the PCK data ("Mars Barycenter") and among the propagators
+                # ("MarsBarycenter"): no spelling serves both, and without PCK files it knows no body at all -
+                # it refuses cleanly (UnknownBodyError), so that spelling is only used where the API accepts it
+                way = "get_orbit"
+            spellings.add(way)
+            if way == "get_orbit":
+                orbit = jpl.get_orbit(names[a], dt)
+            elif way == "get_body":
+                orbit = jpl.get_body(names[a]).propagate(dt)
+            else:
+                orbit = jpl.get_frame(names[a]).center.body.propagate(dt)
             if orbit.frame.name != names[K.parent[a]]:
                 raise Violation("jpl-orbit-frame",
                                 f"get_orbit({names[a]}) is given in {orbit.frame.name}, the segment's centre is "
                                 f"{names[K.parent[a]]}")
             native = ssb[a] - ssb[K.parent[a]]
             compare(orbit.base, native, float(np.linalg.norm(ssb[a][:3])), f"get_orbit({names[a]})")
-        for b in targets:
+        for nb, b in enumerate(targets):
             if a == b:
                 continue
             dst = "EME2000" if b == "EME2000" else names[b]
             ib = 399 if b == "EME2000" else b
+            dst_arg = dst if b == "EME2000" or (na + nb) % 2 else fr[b]
             ref = ssb[ia] - ssb[ib]
             scale = float(np.linalg.norm(ssb[ia][:3]) + np.linalg.norm(ssb[ib][:3]))
             sv = StateVector([0.0] * 6, dt, "cartesian", src)
-            got = np.asarray(sv.copy(frame=dst).base, float)
+            got = np.asarray(sv.copy(frame=dst_arg).base, float)
             compare(got, ref, scale, f"centre of {a if a == 'EME2000' else names[a]} seen from {dst}")
             zero[a, b] = got
             if orbit is not None:
-                got2 = orbit.copy(frame=dst)
+                got2 = orbit.copy(frame=dst_arg)
                 if got2.frame.name != dst:
                     raise Violation("jpl-orbit-frame", f"get_orbit({names[a]}).copy(frame={dst}) is in {got2.frame.name}")
                 compare(got2.base, ref, scale, f"get_orbit({names[a]}) seen from {dst}")
@@ -280,7 +363,8 @@ def check_jpl_pairs(case):
             raise Violation("jpl-antisymmetry", f"{a}->{b} is not the opposite of {b}->{a} at {dt}")
     return dict(nt=True,
                 cls=date_classes(case) + [f"eop:{eop_of(case['shard'])}", f"pck:{'on' if with_pck else 'off'}",
-                                          f"label:{case['label']}"],
+                                          f"label:{case['label']}", f"edge:{case.get('edge', 'none')}",
+                                          f"date-clone:{case.get('clone', 'none')}"] + sorted("by:" + w for w in spellings),
                 ratio=worst)
 
 
